@@ -15,7 +15,7 @@ from .core import HarnessError
 
 _ORIG = {}
 _PATCHED = ('normal', 'laplace', 'choice', 'shuffle', 'permutation', 'rand', 'random',
-            'randint', 'uniform', 'random_sample', 'randn')
+            'randint', 'uniform', 'random_sample', 'randn', 'multinomial')
 _PCG64 = np.random.PCG64
 _Generator = np.random.Generator
 P_POSSIBLE = 1e-12      # adversarial single selections only pick outcomes at least this likely
@@ -319,6 +319,23 @@ class SimRNG:
         with np.errstate(divide='ignore', invalid='ignore'):
             keys = np.where(q > 0, np.log(1.0 - u) / q, -np.inf)
         return np.argsort(-keys, kind='stable')[:m], 'faithful'
+
+    def multinomial(self, n, pvals, size=None):
+        if size is not None:
+            raise HarnessError('multinomial with size is not modelled')
+        pv = np.asarray(pvals, dtype=float)
+        n = int(n)
+        if self.script is not None:
+            rec = self._scripted('multinomial', (pv.size, n))
+            counts = np.array(rec['counts'], dtype=int)
+        else:
+            q = np.clip(pv, 0, None)
+            c = np.cumsum(q)
+            u = self._gen().random(n)
+            idx = np.minimum(np.searchsorted(c, u * c[-1], side='right'), pv.size - 1)
+            counts = np.bincount(idx, minlength=pv.size)
+        self._event('multinomial', n=pv.size, m=n, shape_key=(pv.size, n), p=pv, counts=counts, policy='x')
+        return counts
 
     def shuffle(self, x):
         n = len(x)
